@@ -34,7 +34,21 @@ from common import CaseWriter, Res, Raw, Qc, Nc, Opt, Interner, tagged, untag
 IMPORTS = ("From Coq Require Import QArith.\n"
            "From CKT Require Import Common.Base Model.Observables Corr.C01Corr.\n"
            "Close Scope Q_scope.")
-TOL_VALUE = 1e-7
+TOL_VALUE = 1e-10     # per unit of kappa, see value_tolerance
+
+
+def value_tolerance(impl):
+    """Tolerance of the value comparison: 1e-10 * kappa (kappa = product of the sum|c| of the cut bases, >= 1), capped at
+    1e-7.  Measured error of the pipeline on correct code is <= 6e-14; joint maps legitimately dropped below the 1e-14
+    cut-off can cost at most (#maps) * 1e-14 * kappa <= 2.6e-11 * kappa; a bug that drops maps of probability up to 1e-8
+    costs 1e-10 .. 1e-7 and must be seen."""
+    kap = 1.0
+    try:
+        for cs in (impl.get("st") or {}).get("C", []):
+            kap *= max(1.0, sum(abs(float(Fraction(c))) for c in cs))
+    except Exception:  # noqa: BLE001
+        kap = 1.0
+    return min(1e-7, TOL_VALUE * kap)
 OWN_EVAL_MAX_CIRCUITS = 80      # the harness's own evaluation of the returned subexperiments is done for small cases
 LETTERS = "IXYZ"
 
@@ -610,12 +624,13 @@ def verdict(spec, impl):
     if vals is None or len(vals) != len(truth):
         return dict(violates=True, detail=f"{0 if vals is None else len(vals)} values for {len(truth)} observables")
     err = max(abs(a - b) for a, b in zip(vals, truth)) if truth else 0.0
-    if not all(math.isfinite(v) for v in vals) or err > TOL_VALUE:
+    tol = value_tolerance(impl)
+    if not all(math.isfinite(v) for v in vals) or err > tol:
         own = impl.get("own_values")
         loc = ""
         if isinstance(own, list) and len(own) == len(truth):
             own_err = max(abs(a - b) for a, b in zip(own, truth))
-            loc = (" [own reconstruction of the RETURNED subexperiments also deviates: generation side]" if own_err > TOL_VALUE
+            loc = (" [own reconstruction of the RETURNED subexperiments also deviates: generation side]" if own_err > tol
                    else " [own reconstruction of the returned subexperiments gives the right value: reconstruction side]")
         return dict(violates=True, detail=loc.strip() + " " + f"reconstructed {vals} but the uncut circuit has {truth} (max deviation {err:.3e})"
                                           + (" [observable on a discarded idle qubit]" if acts_on_dropped else ""))
@@ -677,7 +692,7 @@ def one_case(w, spec):
     own = impl.get("own_values")
     if impl["outcome"] == "ok":
         if isinstance(own, list) and impl["values"] is not None:
-            agree = max([abs(a - b) for a, b in zip(own, impl["values"])] or [0.0]) <= TOL_VALUE
+            agree = max([abs(a - b) for a, b in zip(own, impl["values"])] or [0.0]) <= value_tolerance(impl)
             w.count("own_reconstruction_vs_package", "agrees" if agree else "DIFFERS")
         else:
             w.count("own_reconstruction_vs_package", "skipped (large)" if own is None else "own evaluation failed")
@@ -951,6 +966,26 @@ def targeted_specs(rng, tier):
         form = ["dict_explicit", "single_cut_gates", "dict_auto"][i % 3]
         specs.append(dict(kind="roundtrip", it=-2, n=2, form=form, gates=gates, labels=[T("A"), T("B")],
                           obs=_dense_obs(rng, 2, 3) + [[3, 3]], idle=[], stream="big_angle_controlled"))
+    # (k) weakly entangling cuts: 2-3 cuts with |theta| in [1e-4, 1e-3]; the products of their small coefficients give joint
+    #     maps of probability between the 1e-14 cut-off and ~1e-8 that MUST be in the exact weights
+    weak = [("rzz", 2e-4), ("rxx", -1.9e-4), ("ryy", 1.8e-4), ("rzz", -7e-4), ("rxx", 1e-3), ("ryy", -1e-4), ("crz", 4e-4), ("cp", -3e-4)]
+    for i in range(6 * rep):
+        n = 4
+        labels = [["A", "C", "B", "B"], ["A", "B", "C", "C"], [0, 1, 2, 2]][i % 3]
+        sel = [weak[(i + j) % len(weak)] for j in range(3)]
+        if i >= 6:
+            sel = [(nm, float(rng.choice([-1, 1]) * 10 ** rng.uniform(-4, -3))) for nm, _ in sel]
+        gates = _rot_layer(rng, range(n)) + [_g2(("cx", []), 2, 3)]
+        gates.append(_g2((sel[0][0], [sel[0][1]]), 0, 1, cut=True))
+        gates += _rot_layer(rng, [0, 1])
+        gates.append(_g2((sel[1][0], [sel[1][1]]), 2, 1, cut=True))            # descending operands
+        if i == 0 or (tier != "quick" and i % 2 == 0):
+            gates += _rot_layer(rng, [0, 2])
+            gates.append(_g2((sel[2][0], [sel[2][1]]), 0, 2, cut=True))
+        gates += _rot_layer(rng, range(n))
+        form = ["dict_explicit", "single_cut_gates", "dict_marked", "single_pcq", "dict_auto", "dict_explicit"][i % 6]
+        specs.append(dict(kind="roundtrip", it=-2, n=n, form=form, gates=gates, labels=[T(l) for l in labels],
+                          obs=_dense_obs(rng, n, 1) + [[3, 3, 3, 3]], idle=[], stream="weak_cuts"))
     return specs
 
 
@@ -991,7 +1026,8 @@ def generate(rng, tier, outdir):
              "registers, labels as str/tuple, pre-placed TwoQubitQPDGates under explicit labels across and inside partitions); "
              "histories (.definition read before the call, a finite-budget generate first, descending gate ids for cut_gates); "
              "rzx / xx_plus_yy / xx_minus_yy at 1e-4..1e-6 off the special angles; a qubit touched only by marked cut gates under "
-             "automatic labels; crx/cry/crz/cp with |theta| in (pi, 4 pi). The uniform stream also draws resets, "
+             "automatic labels; crx/cry/crz/cp with |theta| in (pi, 4 pi); 2-3 weakly entangling cuts (|theta| in [1e-4, 1e-3]) whose "
+             "joint maps have probabilities between the cut-off and 1e-8. Values are compared at 1e-10 * kappa (cap 1e-7). The uniform stream also draws resets, "
              "registers, tuple labels, pre-placed gates and histories. "
              "distinct = distinct Coq case literal; non-trivial = at least one cut reconstructed, or a refusal",
     )
